@@ -23,7 +23,8 @@
   * `C06_codec`: the value list fits the member widths (`fits`), the struct lies inside the byte
     list, bytes are < 256.  These are the format's own limits ("up to the format's 16-bit limits"):
     `C06_limits` shows the signed 8-bit / 32-bit members round-trip exactly on their ranges and
-    collide just outside.
+    collide just outside, and that the directory index size (32-bit variable) is never truncated
+    for namespaces within the 16-bit entry count.
   * `C06_offsets`: type/string sharing is ignored (sharing only lowers consumption), attributes
     are not part of the reservation inequality (they are reserved and consumed byte for byte).
 -/
@@ -136,19 +137,45 @@ theorem C06_codec_generated (s kind : String) (size base : Nat) (l vals : List N
   simp only [bne_self_eq_false, Bool.false_or] at this
   exact (C06_codec (fieldsOf s) size base l vals this hfit hroom hbytes).1
 
-/-- The signed members round-trip exactly on their ranges — the format's limits stated as
-    hypotheses — and collide just outside them. -/
+/-- The format's limits.  The signed members round-trip exactly on their ranges — the limits
+    stated as hypotheses — and collide just outside them.  The size of the directory index section
+    is kept in a variable of at least 32 bits (the width `_gi_typelib_hash_builder_get_buffer_size`
+    returns; read from girmodule.c on every run): every 32-bit size survives `ALIGN_VALUE` and the
+    assignment unchanged, so for every namespace within the 16-bit entry count of the format (and
+    any hash function below 2 GiB) the `g_assert (len >= builder->packed_size)` of
+    `_gi_typelib_hash_builder_pack` holds and the section ends 4-aligned; a 16-bit variable would
+    already fail at 32766 entries. -/
 theorem C06_limits :
     (∀ c : Int, -128 ≤ c → c < 128 → asInt8 (c % 256).toNat = c) ∧
     (∀ v : Int, -2147483648 ≤ v → v < 2147483648 → asInt32 (v % 4294967296).toNat = v) ∧
-    asInt8 ((128 : Int) % 256).toNat = -128 ∧ asInt32 ((2147483648 : Int) % 4294967296).toNat = -2147483648 := by
-  refine ⟨?_, ?_, by decide, by decide⟩
+    asInt8 ((128 : Int) % 256).toNat = -128 ∧ asInt32 ((2147483648 : Int) % 4294967296).toNat = -2147483648 ∧
+    32 ≤ Gen.dirIndexSizeBits ∧
+    (∀ packed, packed + 3 < 2 ^ 32 →
+      dirIndexRequired Gen.dirIndexSizeBits packed = align4 packed ∧
+      dirIndexPackOk Gen.dirIndexSizeBits packed = true) ∧
+    (∀ cmph n off, n ≤ 65536 → cmph < 2 ^ 31 → off % 4 = 0 →
+      dirIndexPackOk Gen.dirIndexSizeBits (hashPackedSize (dirmapOffset cmph) n) = true ∧
+      dirIndexEnd Gen.dirIndexSizeBits off (hashPackedSize (dirmapOffset cmph) n) % 4 = 0) ∧
+    dirIndexPackOk 16 (hashPackedSize (dirmapOffset 0) 32766) = false := by
+  have hb : 32 ≤ Gen.dirIndexSizeBits := by decide
+  refine ⟨?_, ?_, by decide, by decide, hb, ?_, ?_, by decide⟩
   · intro c h1 h2
     unfold asInt8
     split <;> omega
   · intro v h1 h2
     unfold asInt32
     split <;> omega
+  · intro packed hp
+    exact ⟨dirIndexRequired_eq _ _ hb hp, dirIndexPackOk_of_wide _ _ hb hp⟩
+  · intro cmph n off hn hc ho
+    have hd := align4_lt (4 + cmph)
+    have hp : hashPackedSize (dirmapOffset cmph) n + 3 < 2 ^ 32 := by
+      unfold hashPackedSize dirmapOffset; omega
+    refine ⟨dirIndexPackOk_of_wide _ _ hb hp, ?_⟩
+    unfold dirIndexEnd
+    rw [dirIndexRequired_eq _ _ hb hp]
+    have := align4_mod (hashPackedSize (dirmapOffset cmph) n)
+    omega
 
 /-! ### alignment and offsets -/
 
@@ -287,6 +314,11 @@ example : align4 0 = 0 ∧ align4 1 = 4 ∧ align4 4 = 4 ∧ align4 113 = 116 :=
 example : indexListBytes 3 = 8 ∧ indexListBytes 4 = 8 := by decide
 example : (Ty.hash Ty.basic (Ty.list Ty.iface)).used = 28 ∧ (Ty.hash Ty.basic (Ty.list Ty.iface)).reserved = 32 := by
   decide
+-- the directory index section: 30000 entries with a 20 KiB hash function need 80484 bytes; a 32-bit
+-- variable keeps that, a 16-bit one holds 14948 and the assertion of the packer fails
+example : hashPackedSize (dirmapOffset 20477) 30000 = 80484 ∧ dirIndexRequired 32 80484 = 80484 ∧
+    dirIndexPackOk 32 80484 = true ∧ dirIndexRequired 16 80484 = 14948 ∧ dirIndexPackOk 16 80484 = false ∧
+    dirIndexEnd 32 1000000 80484 = 1080484 := by decide
 -- the decoder answers with a structured error on a file that is too short, and on a wrong magic
 example : (match decode (Image.ofList []) with | .error e => e == .oob "bytes" 0 | .ok _ => false) = true := by
   decide +kernel
